@@ -122,7 +122,7 @@ func thriftGroups(tier string) []group {
 			continue
 		}
 		gs = append(gs, group{"thrift-bare/" + op.name, func(tier string, y func(core.Case) bool) {
-			for _, s := range bareShapes() {
+			for _, s := range append(bareShapes(), containerKeyShapes()...) {
 				if !enumThriftSeedOp(op, bareSeed(s, 2), y) {
 					return
 				}
